@@ -235,12 +235,13 @@ func (v *vbint) UnmarshalBinary(data []byte) error {
 			return unmarshalErr(v, "", "size exceeded")
 		}
 		if encodedByte&128 == 0 {
-			break
+			*v = vbint(value)
+			return nil
 		}
 		multiplier = multiplier * 128
 	}
-	*v = vbint(value)
-	return nil
+	// data ended on a continuation byte
+	return unmarshalErr(v, "", "missing data")
 }
 
 // wire types
